@@ -193,6 +193,7 @@ def parse_units(reg, common):
                      raises={"ProtocolError": "True", "InvalidUriError": "True"},
                      inline_calls=inl, loops=loops or {}, **common)
         if loops:
+            reg.inline_loops[MSG + ":%s.parse" % cls] = loops      # for units that inline parse() (C03 round trips)
             # the constructor walks the chain again with assertions: no invariant of its own, every assertion has to
             # follow from what parse() established
             reg.inline_loops[MSG + ":%s.__init__" % cls] = {"iter:forward_for": {"index": "_j", "invariant": [], "modifies": [],
